@@ -114,6 +114,25 @@ func (s *Sched) Step(label string) {
 	<-ch
 }
 
+// Who returns the thread id of the calling goroutine (ok=false: not a registered goroutine). Used by yield points that are
+// transparent in a run (the caller only records that the thread passed them).
+func (s *Sched) Who() (int, bool) {
+	gid := curGid()
+	s.mu.Lock()
+	defer s.mu.Unlock()
+	if t := s.byGid[gid]; t != nil {
+		return t.id, true
+	}
+	return 0, false
+}
+
+// Count records that a label was reached without parking (transparent yield points).
+func (s *Sched) Count(label string) {
+	s.mu.Lock()
+	s.reached[label]++
+	s.mu.Unlock()
+}
+
 // Go starts f in a new goroutine registered as thread id. The caller then calls synctest.Wait().
 func (s *Sched) Go(id int, f func()) {
 	t := &thread{id: id, ch: make(chan struct{})}
